@@ -38,11 +38,13 @@ func (s BatchedPrivateTokenRequestState) ForTestsOnlyVerifier() *oprf.FinalizeDa
 func (s BatchedPrivateTokenRequestState) FinalizeTokens(tokenResponseEnc []byte) ([]tokens.Token, error) {
 	reader := cryptobyte.String(tokenResponseEnc)
 
-	l, offset := quicwire.ConsumeVarint(tokenResponseEnc)
-	reader.Skip(offset)
+	l, offset := quicwire.ConsumeVarint(reader)
+	if offset < 0 || !reader.Skip(offset) || l > uint64(len(reader)) {
+		return nil, fmt.Errorf("invalid batch token response list encoding")
+	}
 
-	encodedElements := make([]byte, l)
-	if !reader.ReadBytes(&encodedElements, len(encodedElements)) {
+	var encodedElements []byte
+	if !reader.ReadBytes(&encodedElements, int(l)) {
 		return nil, fmt.Errorf("invalid batch token response list encoding")
 	}
 
